@@ -137,37 +137,20 @@ _CACHE = {}
 
 
 def sym_modules(threads_per_block=4):
-    """clones of every function of speckit.core and speckit.core_cuda sharing one redirected namespace"""
+    """speckit.core and speckit.core_cuda re-created over redirected namespaces (every function, every method of their classes,
+    module-level tables copied): numpy -> shim, prange -> range, numba.cuda -> one-thread-per-index launcher"""
     key = ("mods", threads_per_block)
     if key in _CACHE:
         return _CACHE[key]
     import speckit.core as core, speckit.core_cuda as cc
+    from symx.shim import clone_module
     NP = NumpyShim(linalg_qr=exact_qr)
-    bi = make_builtins()
-    import copy as _copy
-    G = dict(core.__dict__)
-    for _n, _o in list(G.items()):          # module-level caches/tables: private copies, never shared with the real module
-        if isinstance(_o, (dict, list, set)) and not _n.startswith("__"):
-            G[_n] = _copy.copy(_o)
-    G.update(np=NP, _prange=range, __builtins__=bi)
-    for name, obj in list(core.__dict__.items()):
-        f = getattr(obj, "py_func", obj)
-        if isinstance(f, _types.FunctionType) and f.__module__ == core.__name__:
-            c = _types.FunctionType(f.__code__, G, f.__name__, f.__defaults__, f.__closure__)
-            c.__kwdefaults__ = f.__kwdefaults__
-            G[name] = c
+    G = clone_module(core, dict(np=NP, _prange=range))
     cuda = FakeCuda()
-    GC = dict(cc.__dict__)
-    for _n, _o in list(GC.items()):
-        if isinstance(_o, (dict, list, set)) and not _n.startswith("__"):
-            GC[_n] = _copy.copy(_o)
-    GC.update(np=NP, math=MathShim(), cuda=cuda, THREADS_PER_BLOCK=threads_per_block, __builtins__=bi, _reduce_stats_nb=G["_reduce_stats_nb"])
-    for name, obj in list(cc.__dict__.items()):
-        f = getattr(obj, "py_func", None) or (obj if isinstance(obj, _types.FunctionType) else None)
-        if isinstance(f, _types.FunctionType) and f.__module__ == cc.__name__:
-            c = _types.FunctionType(f.__code__, GC, f.__name__, f.__defaults__, f.__closure__)
-            c.__kwdefaults__ = f.__kwdefaults__
-            GC[name] = FakeKernel(c, cuda, GC) if name.endswith("_kernel") else c
+    GC = clone_module(cc, dict(np=NP, math=MathShim(), cuda=cuda, THREADS_PER_BLOCK=threads_per_block, _reduce_stats_nb=G["_reduce_stats_nb"]))
+    for name in list(GC):
+        if name.endswith("_kernel") and callable(GC[name]) and not isinstance(GC[name], FakeKernel):
+            GC[name] = FakeKernel(GC[name], cuda, GC)
     _CACHE[key] = (G, GC, cuda)
     return _CACHE[key]
 
